@@ -270,17 +270,16 @@ class Resolver:
                     pass
             return matches
 
-        matches = self.__find(node, name, remainder)
-        if not matches and not Resolver.is_wildcard(name) and not self.relax:
-            raise ChildResolverError(node, name, self.pathattr)
-        return matches
+        return self.__find(node, name, remainder)
 
     def __find(self, node, pat, remainder):
         matches = []
+        found = False
         for child in node.children:
             name = _getattr(child, self.pathattr)
             try:
                 if self.__match(name, pat):
+                    found = True
                     if remainder:
                         matches += self.__glob(child, remainder)
                     else:
@@ -288,6 +287,10 @@ class Resolver:
             except ResolverError as exc:
                 if not Resolver.is_wildcard(pat):
                     raise exc
+        # a literal component is an error only if no child has that name,
+        # not if the components after it match nothing
+        if not found and not Resolver.is_wildcard(pat) and not self.relax:
+            raise ChildResolverError(node, pat, self.pathattr)
         return matches
 
     @staticmethod
